@@ -140,10 +140,15 @@ pub fn exec(line: &str, out: &mut Out) {
                 let hc = *client.world().resource::<ProtocolHash>();
                 server.connect_client(&mut client);
                 let mut disconnect = false;
+                let mut stray = 0usize;
                 for _ in 0..3 {
                     {
-                        let ev = server.world().resource::<Events<DisconnectRequest>>();
-                        disconnect |= !ev.is_empty();
+                        // a disconnect has to be requested for the client that sent the hash, not for anything else
+                        let clients: Vec<Entity> = server.world_mut().query_filtered::<Entity, With<ConnectedClient>>().iter(server.world()).collect();
+                        let mut ev = server.world_mut().resource_mut::<Events<DisconnectRequest>>();
+                        for r in ev.drain() {
+                            if clients.contains(&r.client) { disconnect = true; } else { stray += 1; }
+                        }
                     }
                     server.update();
                     server.exchange_with_client(&mut client);
@@ -153,7 +158,7 @@ pub fn exec(line: &str, out: &mut Out) {
                 let authorized = server.world_mut().query::<(&ConnectedClient, &AuthorizedClient)>().iter(server.world()).count();
                 let connected = server.world_mut().query::<&ConnectedClient>().iter(server.world()).count();
                 format!(
-                    "authorized={authorized} connected={connected} mismatch={} disconnect={} same_hash={}",
+                    "authorized={authorized} connected={connected} mismatch={} disconnect={} stray={stray} same_hash={}",
                     client.world().resource::<Mismatch>().0 as u8,
                     disconnect as u8,
                     (hs == hc) as u8
